@@ -1,5 +1,3 @@
-//go:build verif && c12wip
-
 package props
 
 // c12_test.go - C12: concurrent submissions are serialisable (conflict-free admission, no deadlock).
